@@ -74,9 +74,15 @@ def gen_cases(ctx):
     for k in range(n):
         sysi = SYSTEMS[k % 4]
         noise = 0.3 if rng.random() < 0.05 else 0.0
-        a = reqtext.requirement(rng, sysi, noise)
-        b = reqtext.requirement(rng, sysi, noise)
-        probes = reqtext.probes(rng, sysi, [a, b])
+        if sysi != 2 and rng.random() < 0.3:
+            # operands that share an end point, every open/closed combination; the shared
+            # points are always probed
+            a, b, pts = reqtext.shared_endpoint_pair(rng, sysi)
+            probes = pts + [x for x in reqtext.probes(rng, sysi, [a, b], n_random=2, cap=16) if x not in pts]
+        else:
+            a = reqtext.requirement(rng, sysi, noise)
+            b = reqtext.requirement(rng, sysi, noise)
+            probes = reqtext.probes(rng, sysi, [a, b])
         c = mk(sysi, a, b, probes)
         c["perm_of"] = None
         cases.append(c)
@@ -102,6 +108,8 @@ CORPUS = [
     (4, b">=1.0.0 <1.2.3", b">=1.2.4", [b"1.2.3", b"1.2.4-alpha", b"1.2.4"]),
     (4, b"<1.2", b">=0.0.0-0", [b"0.0.0-rc.1", b"0.5.0"]),
     (2, b"v1.10.9-alpha.1", b"v2.0.0-alpha.1", [b"v2.0.0-alpha.1", b"v2.0.0"]),
+    (4, b">=1.0.0 <=3.0.0", b">=2.0.0 <3.0.0", [b"3.0.0", b"2.0.0", b"1.0.0", b"2.9.9"]),
+    (4, b">=1.0.0 <3.0.0", b">=2.0.0 <=3.0.0", [b"3.0.0", b"2.0.0", b"1.0.0", b"2.9.9"]),
 ]
 
 
